@@ -213,3 +213,68 @@ func (x *Bool) Store(b bool) {
 		StoreUint32(&x.v, 0)
 	}
 }
+
+// ---- the rest of the sync/atomic API (so that an instrumented file keeps compiling whatever it uses)
+
+func LoadUintptr(addr *uintptr) uintptr {
+	pre("LoadUintptr", unsafe.Pointer(addr))
+	return atomic.LoadUintptr(addr)
+}
+func StoreUintptr(addr *uintptr, val uintptr) {
+	pre("StoreUintptr", unsafe.Pointer(addr))
+	atomic.StoreUintptr(addr, val)
+}
+func AddUintptr(addr *uintptr, delta uintptr) uintptr {
+	pre("AddUintptr", unsafe.Pointer(addr))
+	return atomic.AddUintptr(addr, delta)
+}
+func CompareAndSwapUintptr(addr *uintptr, old, new uintptr) bool {
+	pre("CompareAndSwapUintptr", unsafe.Pointer(addr))
+	return atomic.CompareAndSwapUintptr(addr, old, new)
+}
+func SwapUintptr(addr *uintptr, new uintptr) uintptr {
+	pre("SwapUintptr", unsafe.Pointer(addr))
+	return atomic.SwapUintptr(addr, new)
+}
+func SwapPointer(addr *unsafe.Pointer, new unsafe.Pointer) unsafe.Pointer {
+	pre("SwapPointer", unsafe.Pointer(addr))
+	return atomic.SwapPointer(addr, new)
+}
+func (x *Int32) Swap(n int32) int32    { return SwapInt32(&x.v, n) }
+func (x *Int64) Swap(n int64) int64    { return SwapInt64(&x.v, n) }
+func (x *Uint32) Swap(n uint32) uint32 { return SwapUint32(&x.v, n) }
+func (x *Uint64) Swap(n uint64) uint64 { return SwapUint64(&x.v, n) }
+func (x *Bool) Swap(b bool) bool {
+	n := uint32(0)
+	if b {
+		n = 1
+	}
+	return SwapUint32(&x.v, n) != 0
+}
+func (x *Bool) CompareAndSwap(o, n bool) bool {
+	a, b := uint32(0), uint32(0)
+	if o {
+		a = 1
+	}
+	if n {
+		b = 1
+	}
+	return CompareAndSwapUint32(&x.v, a, b)
+}
+
+type Uintptr struct{ v uintptr }
+
+func (x *Uintptr) Load() uintptr                    { return LoadUintptr(&x.v) }
+func (x *Uintptr) Store(v uintptr)                  { StoreUintptr(&x.v, v) }
+func (x *Uintptr) Add(d uintptr) uintptr            { return AddUintptr(&x.v, d) }
+func (x *Uintptr) Swap(n uintptr) uintptr           { return SwapUintptr(&x.v, n) }
+func (x *Uintptr) CompareAndSwap(o, n uintptr) bool { return CompareAndSwapUintptr(&x.v, o, n) }
+
+type Pointer[T any] struct{ v unsafe.Pointer }
+
+func (x *Pointer[T]) Load() *T     { return (*T)(LoadPointer(&x.v)) }
+func (x *Pointer[T]) Store(p *T)   { StorePointer(&x.v, unsafe.Pointer(p)) }
+func (x *Pointer[T]) Swap(p *T) *T { return (*T)(SwapPointer(&x.v, unsafe.Pointer(p))) }
+func (x *Pointer[T]) CompareAndSwap(o, n *T) bool {
+	return CompareAndSwapPointer(&x.v, unsafe.Pointer(o), unsafe.Pointer(n))
+}
